@@ -46,10 +46,6 @@ package ch
 //@   ensures err == nil ==> c.conn.olen == old(c.conn.olen) + 1 {cancel-sent}
 //@   ensures forall k in 0..old(c.conn.olen) :: c.conn.out[k] == old(c.conn.out[k]) {earlier-output-untouched}
 
-//@ contract Dial(ctx, opt) (c, err) props(C11,C13)
-//@   ensures err == nil ==> c != nil
-//@   ensures err != nil ==> c == nil
-
 //@ import atomic sync/atomic
 //@ import context context
 
@@ -63,3 +59,49 @@ package ch
 //@   ensures err != nil ==> c.closed {error-means-closed}
 //@   ensures !ctx.cancelled ==> err == nil {no-cancel-no-error}
 //@   ensures gotException.val ==> c.closed == old(c.closed) && err == nil {exception-is-not-cancelled}
+
+// ---------------------------------------------------------------------------
+// C13: handshake
+
+//@ ghost field (Client) addendum Bool
+//@ valid (c *Client): c != nil ==> c.writer != nil && c.reader != nil && c.writer.buf != nil && c.writer.conn != nil
+
+//@ contract (c *Client) flush(ctx) (err) props(C02,C04,C13)
+//@   requires c != nil && ctx != nil && wRI(c.writer)
+//@   modifies all(c.writer), all(ctx), all(c.conn)
+//@   ensures err == nil ==> len(c.writer.vec) == 0 && c.writer.bufOffset == 0 && len(c.writer.buf.Buf) == 0 {flushed-and-reset}
+//@   ensures wRI(c.writer)
+
+//@ contract (c *Client) packet(ctx) (code, err) props(C03,C08,C13)
+//@   requires c != nil && ctx != nil
+//@   modifies all(c.reader), all(ctx), all(c.conn)
+//@   ensures err == nil ==> code <= 14 {known-code}
+
+//@ contract (c *Client) decode(v) (err) props(C03,C13)
+//@   requires c != nil && v != nil
+//@   modifies all(v), all(c.reader)
+
+//@ contract (c *Client) exception() (e, err) props(C03,C13)
+//@   requires c != nil
+//@   modifies all(c.reader)
+//@   ensures err == nil ==> e != nil {exception-decoded}
+
+//@ -- the addendum may only be written when the NEGOTIATED revision has it
+//@ contract (c *Client) encodeAddendum() props(C13)
+//@   requires c != nil && c.protocolVersion >= 54458
+//@   modifies c.writer.buf.Buf, c.addendum
+//@   ensures [abstract] c.addendum
+
+//@ contract (c *Client) handshake$2() (err) props(C13)
+//@   requires *c != nil && *ctx != nil && *wgCtx != nil && wRI(c.writer) && !c.addendum
+//@   modifies all(*c), all(*ctx), all(*wgCtx), all(*cancel)
+//@   ensures err == nil ==> c.protocolVersion == min(old(c.protocolVersion), c.server.Revision) {negotiated-min}
+//@   ensures err == nil ==> c.addendum == (c.protocolVersion >= 54458) {addendum-iff-negotiated-revision-has-it}
+//@   ensures err == nil ==> len(c.writer.vec) == 0 && len(c.writer.buf.Buf) == 0 {nothing-left-pending}
+
+//@ -- a connection the library itself dialed is closed when connecting fails
+//@ contract Dial(ctx, opt) (c, err) props(C11,C13)
+//@   modifies all(ctx), all(opt.Dialer)
+//@   ensures err == nil ==> c != nil {client-on-success}
+//@   ensures err != nil ==> c == nil {no-client-on-failure}
+//@   ensures err != nil ==> allfresh(net.Conn, closed) {dialed-conn-closed-on-failure}
